@@ -115,6 +115,11 @@ class C19(Prop):
     def spec_verdict(self, case, impl, spec):
         if not impl.endswith("X0"):
             return f"binary exited abnormally: {impl[-10:]}"
+        if isinstance(case.expect, tuple) and case.expect[0] == "PLURAL":
+            items = impl.split(" ")[1].split("|")
+            line = C.unhex(items[0][1:]) if items and items[0].startswith("L") else ""
+            if not line.endswith(" " + case.expect[1]):
+                return f"`{case.text}` printed {line!r}: the unit must be spelled {case.expect[1]!r} (plural only when the value is not one; names as recorded at the pinned commit)"
         exp = self._expected.get(id(case))
         if exp is None:
             return None
@@ -141,19 +146,22 @@ class C19(Prop):
         # every unit whose plural spelling differs from its singular, at values that are one,
         # a unit fraction 1/n, another fraction, and an integer (the plural is decided by
         # "the value is not one", nothing else)
-        import re
-        tbl = (C.LEAN / "Anything" / "Generated" / "Tables.lean").read_text()
-        def chars(x):
-            return "".join(chr(int(n)) for n in re.findall(r"Char.ofNat (\d+)", x))
-        plural_units = []
-        for m in re.finditer(r"sing := \[([^\]]*)\], plur := \[([^\]]*)\]", tbl):
-            sg, pl = chars(m.group(1)), chars(m.group(2))
-            if sg != pl and sg.isascii() and sg.replace(" ", "").isalpha():
-                plural_units.append(sg)
-        for u in plural_units:
+        # (names as recorded at the pinned commit — pinned/unit_bytes.tsv — not as the current
+        # source spells them: a singular/plural mix-up in a unit's own table must not be followed)
+        self._plural = {}
+        for l in (C.VERIF / "pinned" / "unit_bytes.tsv").read_text().splitlines():
+            f = l.split("\t")
+            if len(f) < 5:
+                continue
+            sg, pl = C.unhex(f[2]), C.unhex(f[4])
+            if sg != pl and sg.isascii() and sg.isalpha():   # a name that can be typed as one word
+                self._plural[sg] = pl
+        for u in sorted(self._plural):
             for val in ("1", "0.5", "0.25", "0.1", "0.125", "0.75", "2", "1.5", "-1", "-0.5"):
                 for mode in ("exact", "decimal"):
-                    out.append(Case(f"cli {C.hexs(val + ' ' + u)} {mode}", "plural-sweep", f"{val} {u}"))
+                    c = Case(f"cli {C.hexs(val + ' ' + u)} {mode}", "plural-sweep", f"{val} {u}")
+                    c.expect = ("PLURAL", u if val == "1" else self._plural[u])
+                    out.append(c)
         # unit powers of one, two and three digits, positive and negative, and prefixes that have
         # no symbol of their own (printed as e<n>)
         for pw in list(range(2, 14)) + [19, 20, 21, 25, 30, 99, 100, 101, 120, 123, 1000, 1234]:
@@ -165,6 +173,14 @@ class C19(Prop):
         for pw in list(range(2, 1101 if tier != "quick" else 700)) + [4095, 4096, 4097, 65535, 65536, 65537, 99999, 1000001, 16777217]:
             t = f"1 m^{pw}" if pw % 2 else f"1 s^-{pw}"
             out.append(Case(f"cli {C.hexs(t)} decimal", "power-range", t))
+        # several results in one query, values and errors in every order (what is printed for one
+        # result must come after everything printed for the results before it)
+        import itertools as _it
+        parts = ["(2)", "(1/0)", "(3 km to m)", "(1 m + 1 s)", "(7 s)", "(nosuchfact here)"]
+        for k in (2, 3):
+            for tup in _it.permutations(parts, k):
+                t = " ".join(tup)
+                out.append(Case(f"cli {C.hexs(t)} decimal", "several-results", t))
         for t in ("3 m / (1 s * 2 kg)", "6 / (2 s * 1 m)", "4.2 kJ/kg*K", "1 W/m^2*K^4", "1 kg*m^2/s^3*A^2", "1/(1 s * 1 m * 1 kg)",
                   "2 N*m/(1 s * 1 K)", "1 mol/(1 s * 1 cd * 1 B)"):
             for mode in ("exact", "decimal"):
